@@ -72,7 +72,7 @@ function trapClass(e) {
   return null;
 }
 
-function buildImports(spec, log) {
+function buildImports(spec, log, share) {
   const imports = {};
   let funcIndex = 0;
   const created = { memory: null, globals: [], tables: [] };
@@ -80,7 +80,10 @@ function buildImports(spec, log) {
     const mod = hexToStr(im.module), field = hexToStr(im.field);
     if (!Object.prototype.hasOwnProperty.call(imports, mod)) imports[mod] = {};
     let v;
-    if (im.kind === 'func') {
+    if (share && im.kind !== 'func') {          // `family`: a further instance created with the SAME import objects as its parent
+      v = share.imports[mod][field];
+      if (im.kind === 'memory' && created.memory === null) created.memory = v;
+    } else if (im.kind === 'func') {
       const idx = funcIndex++;
       const params = im.params, results = im.results;
       v = function (...args) {
@@ -155,6 +158,58 @@ function runCall(instance, call, tramps, trampInst) {
   }
 }
 
+// several live instances of ONE module: plan[k] = {kind:'new'} (instantiated before the script, own import objects) or
+// {kind:'child', parent:p, at:j} (instantiated right before script entry j with the import objects of instance p: imported memories,
+// tables and globals are shared, host functions log per instance); script = [{inst, name, args, sig}].  One result record per instance.
+function family(req, wasm) {
+  const plan = req.plan || [], outs = plan.map(() => ({ instantiate: null, results: [], host_log: [], mem: null, globals: {} }));
+  let module;
+  try { module = new WebAssembly.Module(wasm); }
+  catch (e) { for (const o of outs) o.instantiate = ['invalid', String(e.message)]; return { instances: outs }; }
+  const insts = plan.map(() => null), built = plan.map(() => null), tramp = plan.map(() => new Map());
+  function create(k) {
+    const p = plan[k];
+    if (p.kind === 'child' && !insts[p.parent]) { outs[k].instantiate = ['skip']; return; }
+    built[k] = buildImports(req.imports, outs[k].host_log, p.kind === 'child' ? built[p.parent] : null);
+    try { insts[k] = new WebAssembly.Instance(module, built[k].imports); outs[k].instantiate = ['ok']; }
+    catch (e) {
+      const c = trapClass(e);
+      if (c) outs[k].instantiate = ['trap', c, String(e.message)];
+      else if (e instanceof WebAssembly.LinkError) outs[k].instantiate = ['link', String(e.message)];
+      else outs[k].instantiate = ['error', String(e && e.stack || e)];
+    }
+  }
+  plan.forEach((p, k) => { if (p.kind !== 'child') create(k); });
+  const script = req.script || [];
+  for (let j = 0; j <= script.length; j++) {
+    plan.forEach((p, k) => { if (p.kind === 'child' && p.at === j) create(k); });
+    if (j === script.length) break;
+    const c = script[j];
+    outs[c.inst].results.push(insts[c.inst] ? runCall(insts[c.inst], c, req.tramps, tramp[c.inst]) : ['skip']);
+  }
+  plan.forEach((p, k) => {
+    const instance = insts[k];
+    if (!instance) return;
+    let memory = built[k].created.memory;
+    for (const n of Object.keys(instance.exports)) {
+      const v = instance.exports[n];
+      if (v instanceof WebAssembly.Memory) { if (memory === built[k].created.memory) memory = v; }
+      else if (v instanceof WebAssembly.Global) {
+        const x = v.value;
+        outs[k].globals[Buffer.from(n, 'utf8').toString('hex')] =
+          typeof x === 'bigint' ? ['i64', jsToBits('i64', x).toString()] : ['num', f64Bits(x).toString()];
+      }
+    }
+    if (req.mem_hash && memory) {
+      const bytes = Buffer.from(new Uint8Array(memory.buffer));
+      const hash = crypto.createHash('sha256');
+      for (let o = 0; o < bytes.length; o += (1 << 24)) hash.update(bytes.subarray(o, Math.min(bytes.length, o + (1 << 24))));
+      outs[k].mem = { sha256: hash.digest('hex'), pages: bytes.length / 65536 };
+    }
+  });
+  return { instances: outs };
+}
+
 function handle(req) {
   const wasm = hexToBuf(req.wasm);
   if (req.cmd === 'validate') {
@@ -164,6 +219,7 @@ function handle(req) {
     try { new WebAssembly.Module(wasm); return { valid: true }; }
     catch (e) { return { valid: false, message: String(e.message) }; }
   }
+  if (req.cmd === 'family') return family(req, wasm);
   if (req.cmd !== 'run') throw new Error('unknown cmd ' + req.cmd);
   const out = { instantiate: null, results: [], host_log: [], mem: null, globals: {} };
   let module;
